@@ -1,2 +1,9 @@
-import LemoModel
-def main (args : List String) : IO Unit := IO.println s!"driver {args}"
+import Driver.Util
+import Driver.C13
+
+def main (args : List String) : IO UInt32 := do
+  let stdin ← IO.getStdin
+  let stdout ← IO.getStdout
+  match args with
+  | ["c13"] => Driver.loop stdin stdout Driver.C13.step {}; return 0
+  | _ => IO.eprintln s!"unknown model {args}"; return 2
